@@ -423,7 +423,11 @@ func (s *Solver) oneShot(p *proc, extra *Term, vars []*Term) (Result, map[string
 		s.defs(&sb, v, defined, dv, df)
 	}
 	sb.WriteString("(check-sat)\n")
+	tq := time.Now()
 	lines, err := p.run(sb.String(), s.wall())
+	if d := os.Getenv("GOSYMX_DUMP_SLOW"); d != "" && time.Since(tq) > 1500*time.Millisecond {
+		os.WriteFile(fmt.Sprintf("%s/q-%s-%d-%d.smt2", d, p.name, os.Getpid(), time.Now().UnixNano()), []byte(fmt.Sprintf("; %v %v\n%s", time.Since(tq), lines, sb.String())), 0o644)
+	}
 	if err != nil {
 		s.Stats.Errors++
 		return Unknown, nil
